@@ -1,11 +1,9 @@
-use std::borrow::Cow;
-
 use anyhow::Result;
 
 use crate::{
     ast::{
         assignment::AssignmentFlag, new_err, CompilationState, Compile, CompiledItem, Dependencies,
-        Dependency, Ident, WalkForType,
+        Ident, WalkForType,
     },
     instruction,
     parser::{Node, Parser, Rule},
@@ -69,11 +67,9 @@ impl MemberVariable {
     }
 }
 
-impl Dependencies for MemberVariable {
-    fn supplies(&self) -> Vec<crate::ast::Dependency> {
-        vec![Dependency::new(Cow::Borrowed(&self.ident))]
-    }
-}
+// A field is reached through `self`, never by its bare name: it supplies no variable. (A method that
+// reads a variable of the enclosing scope which happens to be called like a field depends on it.)
+impl Dependencies for MemberVariable {}
 
 impl Parser {
     pub fn class_variable(input: Node) -> Result<MemberVariable, Vec<anyhow::Error>> {
